@@ -302,6 +302,8 @@ def run_property(prop, tasks, tier, seed, level_text, assumptions, update_ledger
             functions=[dict(name=k, sha256=v) for k, v in sorted(functions.items())],
             backends=backends,
             samples=samples,
+            cvc5_crosscheck=dict(agree=sum(r.get('cvc5') == 'unsat' for r in vcs), no_verdict=sum(r.get('cvc5') == 'noverdict' for r in vcs),
+                                 disagree=sum(r.get('cvc5') == 'sat' for r in vcs), note='thorough tier only: every z3 unsat verdict of an SMT query re-checked by cvc5 1.0.3 (10 s)'),
             canaries=dict(total=sum(r['kind'] == 'canary' for r in results),
                           refuted_as_expected=sum(r['kind'] == 'canary' and r['status'] == 'ok' for r in results)),
             hypothesis_sets_checked_satisfiable=sum(r['kind'] == 'guard' and r['status'] == 'ok' for r in results),
